@@ -1,13 +1,20 @@
 (* Run.v — entry points specialised to the executable instance, for
    extraction and for vm_compute cross-checks. *)
 From Coq Require Import ZArith List Bool Arith Lia.
-From RV Require Import Val Syntax Rho Offline Online ExtZ.
+From RV Require Import Val Syntax Rho Offline Online Sat ExtZ.
 Import ListNotations.
 
 Definition zformula := @formula ExtZVal.
 Definition ztrace := @trace ExtZVal.
 
 Definition pk_std : zformula -> zformula -> pkind := fun _ _ => PStd.
+
+Definition run_hor (p : zformula) : nat := hor p.
+Definition run_bounded_future (p : zformula) : bool := bounded_future p.
+Definition run_past_only (p : zformula) : bool := past_only p.
+Definition run_is_bool (p : zformula) : bool := is_bool p.
+Definition run_sat (p : zformula) (w : ztrace) (n : nat) : list bool :=
+  map (sat ExtZArith p w n) (seq 0 n).
 
 Section WithPk.
 Variable pk : zformula -> zformula -> pkind.
